@@ -21,7 +21,7 @@ func init() {
 	sim.Register(&sim.Check{
 		ID: "C40", Title: "Magic-block lookup returns the block in force for a round", World: "consensus",
 		Gen: genC40, Exec: execC40,
-		Quick:    sim.Budget{Runs: 1600, WallS: 25},
+		Quick:    sim.Budget{Runs: 1200, WallS: 25},
 		Thorough: sim.Budget{Runs: 300000, WallS: 600},
 		LevelText: "seeded search: 1-4 independent real chain.Chain instances receive one seeded set of magic blocks over a simulated network (any order of starting rounds, verbatim duplicates, " +
 			"lookups racing with late deliveries), interleaved with direct Prune calls at any stored round, the shipped PruneRoundStorage and, in part of the runs, the shipped PruneStorageWorker ticking on a synctest bubble clock; " +
@@ -158,6 +158,7 @@ func execC40(env *sim.Env, p *sim.Plan) *sim.Result {
 	} else {
 		runC40(tr, p, false)
 	}
+	miDumpTrace(tr)
 	return tr.Result(p.Seed)
 }
 
